@@ -25,6 +25,7 @@ import Flowjaxv.Driver.TrainGen
 import Flowjaxv.Driver.LossesGen
 import Flowjaxv.Driver.DistPublicGen
 import Flowjaxv.Driver.CtorsGen
+import Flowjaxv.Driver.FamiliesGen
 /-!
 Model driver: `lake env lean --run Driver.lean < ops.txt`.  One op per line in, one line out
 (`ERR <msg>` when the model rejects the op).
@@ -73,6 +74,11 @@ def dispatch (line : String) : String :=
       | "par" => par args
       | "ac" => ac args
       | "gc" => gc args
+      | "gfam" => gfam args
+      | "gbij" => gbij args
+      | "gmvn" => gmvn args
+      | "gmix" => gmix args
+      | "gmixs" => gmixs args
       | "family" => family args
       | "familyv" => familyv args
       | "familys" => familys args
